@@ -24,6 +24,7 @@ def run(ctx):
             syn, _ = filecamp.synth_inputs(ctx, wd, [rng.randrange(1, 10**6)], versions=["fo3", "sse", "fo4", "fo76"],
                                            types=rng.sample(C.run_lines(ctx.harness, ["gen.types"])[0].split(","), 40 if ctx.tier == "quick" else 150))
             inputs += syn
+            inputs += filecamp.constructed_inputs(ctx, wd)
         walked = C.run_lines_parallel(ctx.driver, [f"c07.walk {f}" for _, f in inputs])
         lines, meta = [], []
         k = 0
